@@ -131,6 +131,7 @@ type env struct {
 	scs   map[int]balancer.SubConn
 	last  map[int]string
 	gates map[int]chan string // pending dial per subchannel
+	stale map[int][]chan string // dials of abandoned attempts that have not returned yet
 	mode  map[int]string      // what the server does with the next accepted connection
 	srv   map[int]*srvConn
 	lis   map[int]*bufconn.Listener
@@ -159,8 +160,18 @@ func (e *env) dial(ctx context.Context, addr string) (net.Conn, error) {
 		if e.gates[sc] == g {
 			delete(e.gates, sc)
 		}
+		abandoned := ctx.Err() == context.Canceled
+		if abandoned {
+			e.stale[sc] = append(e.stale[sc], g)
+		}
 		e.mu.Unlock()
-		return nil, ctx.Err()
+		if !abandoned {
+			return nil, ctx.Err() // connect deadline
+		}
+		// the attempt was abandoned (Shutdown / UpdateAddresses / Close); this dialer does not
+		// honour the cancellation promptly and reports an error of its own when released
+		<-g
+		return nil, errors.New("verif: connection refused (late)")
 	}
 	switch o {
 	case "ok", "closeearly":
@@ -244,7 +255,7 @@ func (e *env) quiescent() {
 
 func newEnv(tr *vlib.Trace, ns, nwatch int) *env {
 	e := &env{tr: tr, t0: time.Now(), ns: ns, scs: map[int]balancer.SubConn{}, last: map[int]string{},
-		gates: map[int]chan string{}, mode: map[int]string{}, srv: map[int]*srvConn{}, lis: map[int]*bufconn.Listener{},
+		gates: map[int]chan string{}, stale: map[int][]chan string{}, mode: map[int]string{}, srv: map[int]*srvConn{}, lis: map[int]*bufconn.Listener{},
 		addrs: map[int][]resolver.Address{}}
 	e.wctx, e.wstop = context.WithCancel(context.Background())
 	for sc := 1; sc <= ns; sc++ {
@@ -283,6 +294,12 @@ func (e *env) finish(closed bool) {
 	}
 	e.wstop()
 	e.mu.Lock()
+	for _, q := range e.stale {
+		for _, g := range q {
+			g <- "fail"
+		}
+	}
+	e.stale = map[int][]chan string{}
 	for _, l := range e.lis {
 		l.Close()
 	}
@@ -428,6 +445,18 @@ func (e *env) apply(st step, variant int) (feasible bool, closed bool) {
 			delete(e.srv, sc) // that connection is gone
 			e.mu.Unlock()
 		}
+	case "stalefail":
+		e.mu.Lock()
+		var g chan string
+		if q := e.stale[sc]; len(q) > 0 {
+			g, e.stale[sc] = q[0], q[1:]
+		}
+		e.mu.Unlock()
+		if g == nil {
+			return false, false
+		}
+		g <- "fail"
+		must = e.lastOf(sc) // the outcome of an abandoned attempt changes nothing
 	case "scshutdown":
 		if e.lastOf(sc) == "SHUTDOWN" {
 			return false, false
@@ -514,7 +543,7 @@ func TestVerifC30Random(t *testing.T) {
 	}
 	n := vlib.EnvInt("VERIF_N", 100)
 	seed := int64(vlib.EnvInt("VERIF_SEED", 1))
-	acts := []string{"connect", "connect", "dialok", "dialok", "dialfail", "dialfail", "backoff", "disconnect", "disconnect", "scshutdown", "sleep", "updaddrs", "updaddrs"}
+	acts := []string{"connect", "connect", "dialok", "dialok", "dialfail", "dialfail", "backoff", "disconnect", "disconnect", "scshutdown", "sleep", "updaddrs", "updaddrs", "stalefail"}
 	var sum summary
 	synctest.Test(t, func(t *testing.T) {
 		for r := 0; r < n; r++ {
